@@ -240,6 +240,18 @@ var d8 = []int{C: V, localKey: C}
 var d9 = T{F: C, G: "g"}
 var d10 = map[T]Box[int]{{F: C}: {Val: V}}
 var d11 = map[int]int{q.Default.N: C}
+
+// every kind of assignment to a dot-imported variable
+func f12(n int) {
+	V = n
+	V += C
+	V |= 1
+	V <<= 1
+	V++
+	n, V = V, n
+	for V = range []int{C} {
+	}
+}
 `},
 	{Name: "duplicate-name", DotFree: true, GoastErr: true, NoTypeCheck: true, Src: `package app
 
